@@ -197,6 +197,9 @@ func (p *Prog) ScopeFuncs() []*ssa.Function {
 		if pk == "" || !InScope(pk) {
 			continue
 		}
+		if isWrapper(f) {
+			continue
+		}
 		out = append(out, f)
 	}
 	sort.Slice(out, func(i, j int) bool {
@@ -456,4 +459,12 @@ func (p *Prog) FuncDecl(obj *types.Func) (*ast.FuncDecl, *packages.Package) {
 		}
 	}
 	return nil, nil
+}
+
+// isWrapper: compiler-synthesised forwarding functions (promoted-method wrappers, bound
+// method closures, thunks). Their bodies only forward to the declared method and are
+// not program text; call-site and writer enumeration skips them.
+func isWrapper(f *ssa.Function) bool {
+	s := f.Synthetic
+	return strings.HasPrefix(s, "wrapper") || strings.HasPrefix(s, "bound") || strings.HasPrefix(s, "thunk")
 }
